@@ -413,7 +413,7 @@ func TestC04(t *testing.T) {
 	}
 
 	// phase 1: single-threaded scripts (cases independent, run on 12 workers)
-	n1 := r.N(36, 360)
+	n1 := r.N(30, 150)
 	var sampleMu sync.Mutex
 	sampled := 0
 	vlib.Parallel(n1, 12, func(i int) {
@@ -439,7 +439,7 @@ func TestC04(t *testing.T) {
 	})
 
 	// phase 2: the same kind of scripts sharded over 2..16 concurrent voters
-	n2 := r.N(24, 240)
+	n2 := r.N(20, 100)
 	sampled = 0
 	vlib.Parallel(n2, 6, func(i int) {
 		w, steps, cp, g := m.buildCase(2, i, 0, true)
